@@ -675,6 +675,14 @@ pub async fn handle_changes(
             continue;
         }
 
+        if let Some(seqs) = change.seqs()
+            && seqs.end() < seqs.start()
+        {
+            // the range comes off the wire unchecked, range sets panic on an inverted one
+            warn!(actor_id = %change.actor_id, versions = ?change.versions(), "received an invalid change, seqs start is greater than seqs end: {seqs:?}");
+            continue;
+        }
+
         if let Some(mut seqs) = change.seqs().cloned() {
             let v = *change.versions().start();
             if let Some(seen_seqs) = seen.get(&(change.actor_id, v))
